@@ -15,7 +15,7 @@
      content=bytes -> raw content without a Content-Type of its own (the generator adds the header);
      cookies=dict -> Cookie header, values must be str;
      urllib.parse.quote(v, safe="") / the server's unquote: a quoted value is ONE path segment.
-   The open defects are kept (F04c, F04d, F04f, F04i, F04j); F04a, F04b, F04e, F04g, F04h are fixed in the code
+   The open defects are kept (F04c, F04d, F04f, F04i, F04j, F04k); F04a, F04b, F04e, F04g, F04h are fixed in the code
    and the model transcribes the fixed code.  No proofs in this file. *)
 From PG Require Import Lib.Strs.
 From PG Require Export Gen.T_C04.
@@ -65,10 +65,10 @@ Fixpoint arg_of (l : list (loc * str * value)) (lc : loc) (n : str) : option val
 
 (* ------------------------------------------------------------------ the observable request *)
 Inductive bobs := ONone | OJson (j : str) | OFiles (fs : list (str * str)) | OForm (kv : list (str * str)) | OBytes (b : str).
-(* r_path: the decoded path; r_segs: the decoded segments of the RAW path (what a router sees);
+(* r_segs: the decoded segments of the RAW path, i.e. the path as a router sees it;
    r_headers: the per-request headers the client hands to the transport, names as written by the
    generator (httpx lower-cases them on the wire; the correspondence compares modulo that) *)
-Record request := { r_method : str; r_path : str; r_segs : list str; r_query : list (str * str); r_headers : list (str * str);
+Record request := { r_method : str; r_segs : list str; r_query : list (str * str); r_headers : list (str * str);
                     r_cookies : list (str * str); r_ctype : option str; r_body : bobs }.
 
 (* ------------------------------------------------------------------ python values and renderings *)
@@ -239,6 +239,27 @@ Fixpoint segs_tok (acc : str) (l : list tok) : list str :=
 Definition toks_of_lit (t : str) : list tok := map (fun c => if c =? slash then TSep else TCh c) t.
 Definition tok_str (t : tok) : str := match t with TSep => [slash] | TCh c => [c] | TAtom s => s end.
 Definition flatten (l : list tok) : str := flat_map tok_str l.
+
+(* httpx normalize_path (RFC 3986 5.2.4) on the path components: "." is dropped, ".." pops the last
+   component unless the output is empty or [""]; an empty result path is sent as "/" *)
+Definition s_dot : str := [46].
+Definition s_dotdot : str := [46;46].
+Fixpoint norm_acc (out : list str) (l : list str) : list str :=      (* [out] is reversed *)
+  match l with
+  | [] => rev out
+  | c :: r =>
+      if str_eqb c s_dot then norm_acc out r
+      else if str_eqb c s_dotdot
+           then norm_acc (match out with
+                          | [] => []
+                          | [x] => if str_eqb x [] then [x] else []
+                          | _ :: t => t
+                          end) r
+           else norm_acc (c :: out) r
+  end.
+Definition fix_empty (l : list str) : list str := match l with [[]] => [[]; []] | _ => l end.
+Definition normalize (l : list str) : list str := fix_empty (norm_acc [] l).
+Definition not_dot (c : str) : bool := negb (str_eqb c s_dot || str_eqb c s_dotdot).
 
 Definition env := list (str * pyval).
 Definition env_get (e : env) (x : str) : pyval := match alookup x e with Some v => v | None => PNone end.
@@ -495,7 +516,7 @@ Section Wire.
                   match eval_body e (pl_body pl) with
                   | None => None
                   | Some (ct, body) =>
-                      Some {| r_method := o_method o; r_path := flatten toks; r_segs := segs_tok [] toks;
+                      Some {| r_method := o_method o; r_segs := normalize (segs_tok [] toks);
                               r_query := q; r_headers := hs; r_cookies := cs; r_ctype := ct; r_body := body |}
                   end
               end
@@ -560,7 +581,6 @@ Section Wire.
 
   Definition Spec (o : op) (a : args) (r : request) : Prop :=
     r_method r = o_method o
-    /\ Some (r_path r) = spec_path o a
     /\ Some (r_segs r) = spec_segments o a                 (* each value stays inside its own segment *)
     /\ (forall n, values_at n (r_query r) = expected o a Query n)
     /\ (forall n, values_at n (r_headers r) = expected o a Header n)
@@ -661,7 +681,16 @@ Section Wire.
                       | _ => true
                       end) (a_params a).
 
+  (* F04k: an intended path segment is "." or ".." (a path VALUE equal to "." or ".." is not escaped by
+     quote(); httpx then treats it as a dot segment: /f/g/.. is sent as /f).  The degenerate empty path
+     template is excluded as well *)
+  Definition guard_F04k (o : op) (a : args) : bool :=
+    match spec_segments o a with
+    | Some l => forallb not_dot l && negb (list_eqb str_eqb l [[]])
+    | None => true
+    end.
+
   Definition guards (o : op) (a : args) : list bool :=
-    [guard_F04j o a; guard_F04c o a; guard_F04d o a; guard_F04f o a; guard_F04i o a].
+    [guard_F04j o a; guard_F04c o a; guard_F04d o a; guard_F04f o a; guard_F04i o a; guard_F04k o a].
   Definition guard (o : op) (a : args) : bool := forallb (fun b => b) (guards o a).
 End Wire.
